@@ -17,6 +17,7 @@ const (
 	c10InEstablishedOutStopped // inbound Established: the manager has disabled the outbound FSM
 	c10HoldDown
 	c10ActiveAfterTCPFail // outbound FSM waiting for the connect-retry timer
+	c10DuringStartup      // stop issued right after start(): lands anywhere in idle / dial / handshakes (dial succeeds at once)
 	c10NumScenarios
 )
 
@@ -30,7 +31,7 @@ func c10Check(e *penv, r *c10result, eventsAtReturn int) {
 	for i, c := range r.conns {
 		verifAssert("every-connection-closed", c.closed)
 		if r.inSession[i] {
-			verifAssert("cease-sent-before-close", c.lastIsCease())
+			verifAssert("cease-sent-before-close", c.ceaseSent())
 		}
 	}
 	verifAssert("onclose-iff-onestablished", e.pl.nClose == e.pl.nEstab)
@@ -46,7 +47,7 @@ func Verif_C10_peer_stop() {
 	if verifTier() >= 1 {
 		d = 3
 	}
-	verifNote("real peer (manager, FSMs, readers, dial goroutine) brought under the base schedule to one of 12 situations (dial pending, dial completing after cancel, OpenSent/OpenConfirm/Established on either direction, both connections in OpenSent, inbound Established with outbound disabled, hold-down, Active after a TCP failure); then one more remote event is injected WITHOUT waiting (none / the message that is legal progress in that state / FIN; thorough also an unexpected message / a received Cease) and peer.stop() is called: all schedules of the stop against the in-flight processing with at most 1 (quick) / 3 (thorough) delays (sleep-set reduced); happens-before race detection on every memory access of corebgp code; deadlock = violation")
+	verifNote("real peer (manager, FSMs, readers, dial goroutine) brought under the base schedule to one of 13 situations (stop racing the whole start-up with an immediately successful dial [2/3 delays], dial pending, dial completing after cancel, OpenSent/OpenConfirm/Established on either direction, both connections in OpenSent, inbound Established with outbound disabled, hold-down, Active after a TCP failure); in the Established situations optionally a goroutine issuing two WriteUpdate calls; then one more remote event is injected WITHOUT waiting (none / the message that is legal progress in that state / FIN; thorough also an unexpected message / a received Cease) and peer.stop() is called: all schedules of the stop against the in-flight processing with at most 1 (quick) / 3 (thorough) delays (sleep-set reduced); happens-before race detection on every memory access of corebgp code; deadlock = violation")
 	sc := verifChoose("scenario", c10NumScenarios)
 	passive := sc == c10OpenSentIn || sc == c10OpenConfirmIn || sc == c10EstablishedIn
 	e := newPenv(passive)
@@ -96,6 +97,14 @@ func Verif_C10_peer_stop() {
 		verifQuiesce()
 		add(c, false)
 		verifAssert("in-hold-down", e.p.inHoldDown)
+	case c10DuringStartup:
+		e.dial.outcomes = []dialOutcome{dialOK}
+		d2 := 2
+		if verifTier() >= 1 {
+			d2 = 3
+		}
+		verifDelayBound(d2)
+		e.p.start() // no quiescence: the stop below races the whole start-up
 	case c10ActiveAfterTCPFail:
 		e.dial.outcomes = []dialOutcome{dialOK, dialPendingThenFail}
 		e.p.start()
@@ -104,7 +113,19 @@ func Verif_C10_peer_stop() {
 		verifQuiesce()
 		add(c, false)
 	}
-	verifDelayBound(d)
+	if sc != c10DuringStartup {
+		verifDelayBound(d)
+	}
+	// WriteUpdate callers active while the stop is issued (Established situations)
+	var wdone chan error
+	if (sc == c10EstablishedOut || sc == c10EstablishedIn) && e.pl.writer != nil && verifChoose("writer-active", 2) == 1 {
+		wdone = make(chan error, 1)
+		w := e.pl.writer
+		go func() {
+			_ = w.WriteUpdate([]byte{0, 0, 0, 0})
+			wdone <- w.WriteUpdate([]byte{0, 0, 0, 1, 9})
+		}()
+	}
 	// one more event in flight while the stop is issued
 	if racing != nil {
 		// the racing connection's session state when the stop is issued
@@ -156,6 +177,10 @@ func Verif_C10_peer_stop() {
 	}
 	e.p.stop()
 	ev := len(e.pl.events)
+	if wdone != nil {
+		<-wdone // an active writer must come back (with or without error), never wedge
+		verifCover("stopped-with-active-writer")
+	}
 	for _, c := range e.dial.conns {
 		found := false
 		for _, x := range res.conns {
